@@ -44,8 +44,9 @@ theorem initial_ready (b : VBytes) (fault : Bool) : Ready (LR.init b fault) :=
 literal type and parser configuration, every input). -/
 theorem cnf_item_no_lookahead (p p' : Parser) (lr lr' : LR) (c : Clause) (h : Ready lr)
     (hr : p.nextClause.run lr = (.ok (some c, p'), lr')) :
-    (lr'.v.peeked ≤ lr'.v.pos ∨ lr'.v.sawEnd = true) ∧ lr'.v.peeked ≤ lr'.v.pos + 1 :=
-  (nextClause_ready p h).of_run.1 (some c, p') lr' hr c rfl
+    (lr'.v.peeked ≤ lr'.v.pos ∨ lr'.v.sawEnd = true) ∧ lr'.v.peeked ≤ lr'.v.pos + 1 := by
+  obtain ⟨h1, h2⟩ := (nextClause_ready p h).of_run.1 (some c, p') lr' hr c rfl
+  exact ⟨h1.imp id And.left, h2⟩
 
 /-- … and leaves the parser ready for the next call. -/
 theorem cnf_item_ready (p p' : Parser) (lr lr' : LR) (c : Clause) (h : Ready lr)
@@ -61,7 +62,7 @@ theorem cnf_header_no_lookahead (fmt : Format) (l : LitTy) (ignoreHeader : Bool)
       (lr'.v.peeked ≤ lr'.v.pos ∨ lr'.v.sawEnd = true) ∧ lr'.v.peeked ≤ lr'.v.pos + 1) ∧
     Ready lr' := by
   obtain ⟨h1, h2⟩ := (parserNew_la fmt l ignoreHeader).of_run.1 p lr' hr
-  exact ⟨fun hh => h1 hh h, h2 h⟩
+  exact ⟨fun hh => ⟨(h1 hh h).1.imp id And.left, (h1 hh h).2⟩, h2 h⟩
 
 /-- The states of a whole-document parse at which something has been handed out: after
 `Parser::new` (flag: a header was present) and after every returned clause (flag `true`). -/
